@@ -444,6 +444,8 @@ impl<'a, D: DependencyProvider> Encoder<'a, D> {
         if !self.state.clauses_added_for_solvable.insert(solvable_id) {
             return;
         }
+        #[cfg(feature = "verif-hooks")]
+        super::verif::queued_solvable(solvable_id);
 
         // Construct a future that queries the dependencies for the solvable
         let cache = self.cache;
@@ -469,6 +471,8 @@ impl<'a, D: DependencyProvider> Encoder<'a, D> {
         if !self.state.clauses_added_for_package.insert(name_id) {
             return;
         }
+        #[cfg(feature = "verif-hooks")]
+        super::verif::queued_package(name_id);
 
         // Construct a future that queries the candidates for the package
         let cache = self.cache;
